@@ -975,6 +975,30 @@ package adaptation
 //@   loop 1 invariant len(r.reply.update) >= old(len(r.reply.update)) && (forall i int :: 0 <= i && i < old(len(r.reply.update)) ==> r.reply.update[i] == old(r.reply.update[i]))
 //@   loop 1 invariant forall id string :: old(has(r.updates, id)) ==> has(r.updates, id) && r.updates[id] == old(r.updates[id])
 
+// -- what is handed back to the runtime
+//@ func result.createContainerResponse
+//@   props C05 C03
+//@   requires r != nil
+//@   ensures [fresh]  result != nil && fresh(result)
+//@   ensures [same]   result.Adjust == r.reply.adjust && result.Update == r.reply.update
+
+//@ func result.stopContainerResponse
+//@   props C05
+//@   requires r != nil
+//@   ensures [fresh]  result != nil && fresh(result)
+//@   ensures [same]   result.Update == r.reply.update
+
+// the entry of the container being updated is not in the collected list (getContainerUpdate
+// [own]); it is appended here, last - nil when no plugin touched that container
+//@ func result.updateContainerResponse
+//@   props C05
+//@   requires r != nil && r.request.update != nil && allocated(r.request.update.Container)
+//@   modifies elems(r.reply.update)
+//@   ensures [fresh]  result != nil && fresh(result)
+//@   ensures [len]    len(result.Update) == len(r.reply.update) + 1
+//@   ensures [prefix] forall i int :: 0 <= i && i < len(r.reply.update) ==> result.Update[i] == old(r.reply.update[i]) && r.reply.update[i] == old(r.reply.update[i])
+//@   ensures [last]   result.Update[len(r.reply.update)] == (has(r.updates, r.request.update.Container.Id) ? r.updates[r.request.update.Container.Id] : nil)
+
 // ---------------------------------------------------------------------------
 // Plugin relays (plugin.go) and request dispatch (adaptation.go)   [generated by gen_relays.py]
 // ---------------------------------------------------------------------------
@@ -1384,15 +1408,21 @@ package adaptation
 //@   modifies @writes
 //@   ensures result != nil && fresh(result) && result.request.create == request && result.request.update == nil
 //@ func collectUpdateContainerResult
-//@   props C04 C06 C07
-//@   requires request == nil || request.Container != nil
-//@   modifies @writes
+//@   props C04 C05 C06 C07
+//@   requires request == nil || (allocated(request) && request.Container != nil && (request.LinuxResources != nil ==> noNilHP(request.LinuxResources.HugepageLimits)))
+//@   modifies request.LinuxResources, request.LinuxResources.Memory, request.LinuxResources.Cpu
 //@   ensures result != nil && fresh(result) && result.request.update == request && result.request.create == nil
+//@   ensures [wf]    wfCollect(result)
+//@   ensures [empty] len(result.reply.update) == 0 && (forall id string :: !has(result.updates, id)) && (forall j string :: !has(result.owners, j))
+//@   ensures [norm]  request != nil ==> (old(request.LinuxResources) != nil ==> request.LinuxResources == old(request.LinuxResources)
+//@                    && (old(request.LinuxResources.Memory) != nil ==> request.LinuxResources.Memory == old(request.LinuxResources.Memory))
+//@                    && (old(request.LinuxResources.Cpu) != nil ==> request.LinuxResources.Cpu == old(request.LinuxResources.Cpu)))
 //@ func collectStopContainerResult
-//@   props C04 C06 C07
+//@   props C04 C05 C06 C07
 //@   requires true
-//@   modifies @writes
 //@   ensures result != nil && fresh(result) && result.request.update == nil && result.request.create == nil
+//@   ensures [wf]    wfCollect(result)
+//@   ensures [empty] len(result.reply.update) == 0 && (forall id string :: !has(result.updates, id)) && (forall j string :: !has(result.owners, j))
 
 //@ func Adaptation.CreateContainer
 //@   props C01 C06 C07
@@ -1419,7 +1449,7 @@ package adaptation
 
 //@ func Adaptation.UpdateContainer
 //@   props C01 C06 C07
-//@   requires r != nil && req != nil && !held(r.Mutex) && wfPlugins(r) && cfgLockFree() && req.Container != nil
+//@   requires r != nil && req != nil && !held(r.Mutex) && wfPlugins(r) && cfgLockFree() && req.Container != nil && (req.LinuxResources != nil ==> noNilHP(req.LinuxResources.HugepageLimits))
 //@   modifies @writes
 //@   at call plugin.updateContainer assert held(r.Mutex)
 //@   at call result.apply assert held(r.Mutex)
